@@ -214,7 +214,7 @@ func (rn *runner) kernelModelPhase() {
 	if !rn.st {
 		return
 	}
-	rounds, procs, gor, iters := rn.tierSizes("KMODEL", [4]int{2, 4, 3, 40}, [4]int{6, 6, 4, 120})
+	rounds, procs, gor, iters := rn.tierSizes("KMODEL", [4]int{2, 4, 3, 40}, [4]int{8, 5, 3, 60})
 	for r := 0; r < rounds; r++ {
 		if rn.kernelModelRound(procs, gor, iters, 1+r%2, rn.rng.Uint64()%1000000) {
 			break
